@@ -300,6 +300,21 @@ def _check_histories(tier, seed):
             c = a.copy()
             h.compare(a, c, True, "cartesian_only:copy_after_normalize_call", "near_unit_radius", inp)
             h.compare(a, b, True, "cartesian_only:twin_without_normalize_call", "near_unit_radius", inp)
+    # a dataset that one grid already owned (so it carries whatever that grid left on it, attrs included), wrapped again under
+    # another / the same format name: the new grid stems from the format it was constructed with
+    for mname, mdesc in descs[:3]:
+        m = {"name": mname}
+        g1 = _build(mdesc)
+        for how, mk3 in (("from_dataset(g._ds.copy())", lambda spec: ux.Grid.from_dataset(g1._ds.copy(), source_grid_spec=spec)),
+                         ("Grid(g._ds.copy(deep=True))", lambda spec: ux.Grid(g1._ds.copy(deep=True), spec))):
+            for spec, expect in (("Some Other Format", False), (g1.source_grid_spec, True)):
+                inp = {"mesh": m["name"], "construction": f"{how} with source_grid_spec={spec!r}",
+                       "history": ["build g", "wrap g's dataset again", "=="]}
+                try:
+                    g2 = mk3(spec)
+                except Exception:  # noqa: BLE001 - re-wrapping not supported for this mesh: outside the property
+                    continue
+                h.compare(g1, g2, expect, "rewrapped_dataset:" + how.split("(")[0], "same_format" if expect else "other_format", inp)
     return h, len(descs) + len(quads), accs
 
 
